@@ -452,3 +452,53 @@ Example C04_objects_hypotheses_satisfiable :
   (forall e, In e (fst Obj.ObjExamples.ox_run) -> Obj.ObjFaithful.ofaithful Obj.ObjExamples.ox_t1 Obj.ObjExamples.ox_t2 e).
 Proof. exact (conj Obj.ObjExamples.ox_wf (conj Obj.ObjExamples.ox_nontrivial Obj.ObjExamples.ox_faithful)). Qed.
 Print Assumptions C04_objects_hypotheses_satisfiable.
+
+(* ---- the TEXT of the reported paths (C04's text view, for values with instances) --------------------------
+   [okeys_ok] (Obj/ObjTextPaths.v): every dict key of the value satisfies C09's guard on keys and every attribute
+   name is a plain identifier (Obj.ObjPathText.attr_ok).  Then every path the run reports - for every entry kind,
+   every configuration - satisfies Obj.ObjPathText.opath_ok (no class slot, only such keys and names), so the text
+   DeepDiff prints for it is parsed back to the same elements, and deepdiff.extract on that text follows exactly the
+   keys / indexes / attribute names of the path: with C04_objects_entries_resolve, the reported text extracts the
+   reported values.  (Before round 3 wave 2 this was only observed by the obj_c09 stream.) *)
+From DD Require Obj.ObjTextPaths Obj.ObjPathText Obj.ObjText.
+
+Theorem C04_objects_reported_paths_ok_partial :
+  forall hatom udiff ops c (t1 t2 : Obj.ObjValue.ovalue),
+    Obj.ObjValue.owf t1 = true -> Obj.ObjTextPaths.okeys_ok t1 = true ->
+    Obj.ObjValue.owf t2 = true -> Obj.ObjTextPaths.okeys_ok t2 = true ->
+    forall e, In e (fst (Obj.ObjModel.orun hatom udiff ops c t1 t2)) ->
+      Obj.ObjPathText.opath_ok (Obj.ObjModel.oep1 e) = true /\ Obj.ObjPathText.opath_ok (Obj.ObjModel.oep2 e) = true.
+Proof. intros. eapply Obj.ObjTextPaths.orun_paths_ok; try eassumption; split; assumption. Qed.
+Print Assumptions C04_objects_reported_paths_ok_partial.
+
+Theorem C04_objects_text_paths_extract_partial :
+  forall hatom udiff ops c (t1 t2 : Obj.ObjValue.ovalue),
+    thr_num c <= thr_den c ->
+    Obj.ObjValue.owf t1 = true -> Obj.ObjTextPaths.okeys_ok t1 = true ->
+    Obj.ObjValue.owf t2 = true -> Obj.ObjTextPaths.okeys_ok t2 = true ->
+    forall e, In e (fst (Obj.ObjModel.orun hatom udiff ops c t1 t2)) ->
+      Obj.ObjFaithful.ofaithful t1 t2 e /\
+      Obj.ObjText.oextract t1 (Obj.ObjText.orender (Obj.ObjModel.oep1 e)) = Obj.ObjValue.oresolve t1 (Obj.ObjModel.oep1 e) /\
+      Obj.ObjText.oextract t2 (Obj.ObjText.orender (Obj.ObjModel.oep2 e)) = Obj.ObjValue.oresolve t2 (Obj.ObjModel.oep2 e) /\
+      (forall root, Obj.ObjText.oextract root (Obj.ObjText.orender (Obj.ObjModel.oep1 e)) = Obj.ObjValue.oresolve root (Obj.ObjModel.oep1 e)).
+Proof. intros. eapply Obj.ObjTextPaths.orun_text_faithful; try eassumption; split; assumption. Qed.
+Print Assumptions C04_objects_text_paths_extract_partial.
+
+(* without the guard: PA(__x=1) against PA(__x=2) with ignore_private_variables=False reports root.__x, whose text
+   extracts the instance itself instead of 1 (observation OBJ3) *)
+Theorem C04_objects_text_paths_extract_refuted_private_attribute :
+  Obj.ObjValue.owf Obj.ObjTextPaths.tp_t1 = true /\ Obj.ObjValue.owf Obj.ObjTextPaths.tp_t2 = true /\
+  Obj.ObjTextPaths.okeys_ok Obj.ObjTextPaths.tp_t1 = false /\
+  exists e, In e (fst (Obj.ObjModel.orun (fun _ => []) (fun _ _ => []) (fun _ _ _ => []) (mkCfg false 1 3 false)
+                         Obj.ObjTextPaths.tp_t1 Obj.ObjTextPaths.tp_t2)) /\
+    Obj.ObjValue.oresolve Obj.ObjTextPaths.tp_t1 (Obj.ObjModel.oep1 e) = Some (Obj.ObjValue.OAtom (AInt 1)) /\
+    Obj.ObjText.oextract Obj.ObjTextPaths.tp_t1 (Obj.ObjText.orender (Obj.ObjModel.oep1 e)) = Some Obj.ObjTextPaths.tp_t1.
+Proof. exact Obj.ObjTextPaths.text_paths_refuted. Qed.
+Print Assumptions C04_objects_text_paths_extract_refuted_private_attribute.
+
+(* the guard holds of the pair of C04_objects_hypotheses_satisfiable (9 entries of 7 kinds) *)
+Example C04_objects_text_paths_guard_satisfiable :
+  Obj.ObjTextPaths.okeys_ok Obj.ObjExamples.ox_t1 = true /\ Obj.ObjTextPaths.okeys_ok Obj.ObjExamples.ox_t2 = true /\
+  length (fst Obj.ObjExamples.ox_run) = 9.
+Proof. vm_compute. repeat split; reflexivity. Qed.
+Print Assumptions C04_objects_text_paths_guard_satisfiable.
